@@ -55,6 +55,21 @@ CHECKS = {
             "DESIGN.md 6/C14 and 3",
             "(a) Generated containers written by the current creator are decoded, file by file, by an independent decoder that shares no code with the library and asserts the on-disk layout (a change applied symmetrically to writer and reader passes round-trips but fails here); it must recover exactly the model. (b) 60 reference containers written by the pinned version (all packagings, compressions, store kinds, property kinds, variants, sorted stores, references, extra packs) are read by the current reader and must dump to the committed expected content and verify.",
             "Trusts the independent decoder (written from spec/*.rst, divergences documented in DESIGN.md 3 and confirmed by a separate Python decode) and the blake3/lz4/xz2/zstd crates. Corpus cases are those the pinned writer wrote correctly (decoder == model); produced from fc3306d plus the cfg-guarded hooks commit only."),
+    "C04": ("E2-fault-enumerator", "fault_enumeration",
+            "fault enumeration: every byte of every checked range x masks + seeded multi-edit scripts, reader child processes",
+            "DESIGN.md 6/C04 and 4.1",
+            "For 24 small containers (2 shapes x 3 packagings x 4 compressions; larger generated ones in the thorough tier) the independent decoder gives every pack's checked range and check block; every byte position in them is altered with three masks, plus seeded scripts of 2-8 simultaneous xor/zero/overwrite edits. The pristine containers must pass every pack check, file check and Container::check; after an alteration the check of that pack and the container check must answer false or an error, never success (manifest location bytes exempt).",
+            "Trusts the independent decoder's map of checked ranges; reader child deaths are C06's domain (counted, not judged here); edits that change no byte or only exempt bytes are not required to fail."),
+    "C05": ("E2-fault-enumerator", "fault_enumeration",
+            "fault enumeration: every byte of every file x masks + seeded range scripts, access-by-access differential against the pristine dump",
+            "DESIGN.md 6/C05 and 4.1",
+            "Every byte position of every file of 24 small containers is altered with three masks, plus seeded zero/overwrite/xor scripts stratified per on-disk structure; a reader child produces an access-by-access dump (pack count, content counts, index headers, every entry, content sizes and hashes). Each structural answer must equal the pristine one or be an error; content bytes may differ only when the container check then fails.",
+            "Same-length alterations only (truncation/garbage are C06). CRC-32 misses a random multi-byte overwrite with probability 2^-32. Re-checksummed content and block transplants are outside the claim."),
+    "C06": ("E2-fault-enumerator", "fault_enumeration",
+            "fault enumeration in two build profiles: every truncation length, every byte x masks, whole-file replacement, appended garbage, seeded range scripts; process-outcome validity predicate",
+            "DESIGN.md 6/C06, 2.4, 2.6",
+            "For small containers of all four compressions and three packagings: every truncation length of every file, every byte position x masks, replacement by empty/random/text/'jbkC'-prefixed/another valid container, appended garbage and seeded range scripts are read by a child without catch_unwind in a debug-assertions+overflow-checks build and in a release build (open, dump everything, stream every content whole and in 7-byte reads, run all checks). A panic, abort, signal, a process blocked forever (all threads asleep, no cpu) or a decode loop that stops advancing is a violation; a plain timeout is inconclusive.",
+            "Blocked/no-progress use the sound criteria of DESIGN 2.6 (the no-progress criterion needs the cfg(jubako_verif) dec.pre_publish hook). Adversarially re-checksummed files are outside the claim."),
 }
 
 NOT_YET = {
